@@ -13,6 +13,12 @@ from .values import (BoundExt, ClassRef, ExtRef, FuncRef, OpaqueFn, Opt, Ref, Sy
                      is_concrete, is_sym, simp, zint, zreal, zstr)
 
 
+PLAIN_DECORATORS = {"classmethod", "staticmethod", "property", "abstractmethod", "dataclass", "overload", "wraps"}
+MEMO_DECORATORS = {"cache", "lru_cache"}
+INLINED = {}     # qualname -> number of times the REAL body was executed symbolically in this process
+SUMMARIZED = {}  # qualname -> number of call sites answered by the callee's contract
+
+
 class CallMixin:
     BUILTIN_NAMES = {"isinstance", "len", "str", "int", "float", "bool", "max", "min", "type", "getattr", "hasattr", "any", "all", "sum", "tuple",
                      "list", "dict", "set", "range", "enumerate", "zip", "super", "next", "iter", "bytes", "repr", "sorted", "abs", "callable",
@@ -46,10 +52,17 @@ class CallMixin:
         q = fi.qualname
         if q in self.summaries:
             r = self.summaries[q](self, st, args, kwargs)
-            if r is not None:  # None: the summary does not apply to these arguments -> the real body is executed
+            if r is not None:
+                SUMMARIZED[q] = SUMMARIZED.get(q, 0) + 1  # None: the summary does not apply to these arguments -> the real body is executed
                 return r
         if st.depth > 60:
             raise Unsupported(f"recursion depth at {q}")
+        INLINED[q] = INLINED.get(q, 0) + 1
+        for d in fi.decorators:
+            if d in MEMO_DECORATORS and not st.ghost.get("__in_memo__") == q:
+                return self.call_memoized(fi, args, kwargs, st, closure)
+            if d not in PLAIN_DECORATORS and d not in MEMO_DECORATORS:
+                raise Unsupported(f"decorator @{d} on {q}: its effect on the function is not modelled")
         frame = {"__module__": fi.module, "__func__": q, "__funcinfo__": fi}
         if closure is not None:
             frame["__closure__"] = closure
@@ -321,6 +334,50 @@ class CallMixin:
             return False
         return ext_subclass(a.split(".")[-1], b.split(".")[-1])
 
+    def call_memoized(self, fi, args, kwargs, st, closure):
+        """functools.cache / lru_cache: equal arguments return the SAME object as the first call (the body is not executed again)"""
+        q = fi.qualname
+        if kwargs:  # normalise to positional order (functools keys on the call shape; equal values in the same shape hit the cache)
+            args = list(args)
+            for p_ in fi.params[len(args):]:
+                if p_ in kwargs:
+                    args.append(kwargs[p_])
+                else:
+                    break
+            if len(args) != len(fi.params) - 0 and any(k_ not in fi.params for k_ in kwargs):
+                raise Unsupported(f"memoized {q} called with unknown keywords")
+            kwargs = {}
+
+        def same(a, b):
+            if isinstance(a, Ref) or isinstance(b, Ref):
+                return isinstance(a, Ref) and isinstance(b, Ref) and a.oid == b.oid
+            if is_sym(a) and is_sym(b):
+                return a.kind == b.kind and z3.eq(simp(a.t), simp(b.t))
+            if is_sym(a) or is_sym(b) or isinstance(a, Opt) or isinstance(b, Opt):
+                return None
+            return type(a) is type(b) and a == b
+        table = st.ghost.get("__memo__", {}).get(q, ())
+        for a0, r0 in table:
+            eqs = [same(x, y) for x, y in zip(a0, args)] if len(a0) == len(args) else [False]
+            if all(e is True for e in eqs):
+                st.emit("memo_hit", func=q)
+                return [("val", r0, st)]
+            if any(e is None for e in eqs) or (all(e is not False for e in eqs)):
+                raise Unsupported(f"memoized {q}: cannot decide whether the arguments equal an earlier call's")
+            if not any(e is False for e in eqs):
+                raise Unsupported(f"memoized {q}: undecided argument comparison")
+        out = []
+        prev = st.ghost.get("__in_memo__")
+        st.ghost["__in_memo__"] = q
+        for k, v, s in self.call_func(fi, args, kwargs, st, closure):
+            s.ghost["__in_memo__"] = prev
+            if k == "val":
+                memo = dict(s.ghost.get("__memo__", {}))
+                memo[q] = tuple(memo.get(q, ())) + ((tuple(args), v),)
+                s.ghost["__memo__"] = memo
+            out.append((k, v, s))
+        return out
+
     def new_symexc(self, st, prefix="exc", never=()):
         msg = fresh("str", prefix + "_msg")
         tn = fresh("str", prefix + "_type")
@@ -433,6 +490,9 @@ class CallMixin:
         if short == "dict":
             if not args and not kwargs:
                 return [("val", st.alloc("dict", {"__kind__": "dict", "e": {}, "open": False}), st)]
+            if len(args) == 1 and not kwargs and isinstance(args[0], Ref) and st.get(args[0]).get("__kind__") == "dict" and not st.get(args[0])["open"]:
+                # dict(d): SHALLOW copy - the values (nested dicts / lists) stay shared with d
+                return [("val", st.alloc("dict", {"__kind__": "dict", "e": dict(st.get(args[0])["e"]), "open": False}), st)]
         if short == "range":
             if all(isinstance(a, int) for a in args):
                 return [("val", tuple(range(*args)), st)]
